@@ -8,9 +8,8 @@
 (* of today's code, and writes one verdict per record:                       *)
 (*   agree      the real behaviour is the property's                          *)
 (*   deviation  it is not, but it is exactly what the machine computes with    *)
-(*              the named deviation switches on; sw = the switches without     *)
-(*              which the machine would not produce it (the classifier of a    *)
-(*              known finding)                                               *)
+(*              the deviation switches of today's code on; sw = the switches    *)
+(*              it is attributed to (the classifier of a known finding)       *)
 (*   mismatch   neither                                                      *)
 (*   oom        the model does not decide the case                           *)
 (***************************************************************************)
@@ -24,7 +23,19 @@ Same(r, obs) ==
        [] r.k = "err" -> r.e = obs.e
        [] OTHER -> FALSE
 
+(***************************************************************************)
+(* Attribution of a deviation to switches: the switches without which the     *)
+(* machine would not produce the observation; when every switch alone is      *)
+(* dispensable (two deviations each produce it: e.g. slotReuse and             *)
+(* hideInclVars for a re-included data import), the switches that alone, over   *)
+(* the repaired machine, produce it; else all of them.                        *)
+(***************************************************************************)
 Necessary(c, obs) == {k \in SwNames : ~Same(Code(c, [SwCode EXCEPT ![k] = FALSE]), obs)}
+Sufficient(c, obs) == {k \in SwNames : Same(Code(c, [SwFixed EXCEPT ![k] = TRUE]), obs)}
+Attribution(c, obs) ==
+  LET nec == Necessary(c, obs) IN
+  IF nec # {} THEN nec
+  ELSE LET suf == Sufficient(c, obs) IN IF suf # {} THEN suf ELSE SwNames
 
 Verdict(rec) ==
   LET c == rec.c
@@ -34,7 +45,7 @@ Verdict(rec) ==
      ELSE LET i == Code(c, SwCode) IN
           IF Same(p, obs) THEN [id |-> rec.id, v |-> "agree", k |-> p.k, code |-> Same(i, obs)]
           ELSE IF i.k = "oom" THEN [id |-> rec.id, v |-> "oom", why |-> i.why]
-          ELSE IF Same(i, obs) THEN [id |-> rec.id, v |-> "deviation", sw |-> SetToSeq(Necessary(c, obs)), exp |-> p]
+          ELSE IF Same(i, obs) THEN [id |-> rec.id, v |-> "deviation", sw |-> SetToSeq(Attribution(c, obs)), exp |-> p]
           ELSE [id |-> rec.id, v |-> "mismatch", exp |-> p, code |-> i]
 
 VARIABLE done
